@@ -593,7 +593,7 @@ pub fn gen_sched(master: u64, idx: u64, profile: &str) -> Sched {
         6 => ValMode::Huge,
         _ => ValMode::SignedZero,
     };
-    let target = if r.chance(1, 4) {
+    let target = if r.chance(1, 4) || (profile == "stop" && r.chance(1, 2)) {
         Some(match val_mode {
             ValMode::Random => -8.0 + r.unit(),
             ValMode::Decreasing => 1000.0 - (1 + r.below(60)) as f64,
@@ -606,15 +606,15 @@ pub fn gen_sched(master: u64, idx: u64, profile: &str) -> Sched {
         None
     };
     let est = budget.unwrap_or(if long { 300 } else { 30 });
-    let fail_at = if r.chance(1, 5) { Some(r.below(est.max(1) + 2)) } else { None };
+    let fail_at = if r.chance(1, 5) || profile == "fail" { Some(r.below(est.max(1) + 2)) } else { None };
     let fail2_at = if fail_at.is_some() && r.chance(1, 2) {
         Some(fail_at.unwrap() + 1 + r.below(nc + 1))
     } else {
         None
     };
-    let nonfinite_at = if r.chance(1, 10) { Some(r.below(est.max(1) + 2)) } else { None };
+    let nonfinite_at = if r.chance(1, 10) || (profile == "fail" && r.chance(1, 3)) { Some(r.below(est.max(1) + 2)) } else { None };
     let max_rounds = if budget.is_none() { est + 10 + r.below(40) } else { 4 * est + 50 };
-    let terminate_at = if r.chance(1, 4) || budget.is_none() {
+    let terminate_at = if r.chance(1, 4) || budget.is_none() || (profile == "stop" && target.is_none()) || (profile == "stop" && r.chance(1, 2)) {
         Some(r.below(if budget.is_none() { max_rounds - 5 } else { est.max(1) + 3 }))
     } else {
         None
